@@ -3,7 +3,7 @@ from .protoprop import spec
 
 SPEC = spec(
     'C04',
-    ['C04_waiting_caller_has_a_timeout_armed', 'C04_except_clauses_are_the_model', 'C04_wait_for_is_the_model',
+    ['C04_bound_concurrent_refuted', 'C04_waiting_caller_has_a_timeout_armed', 'C04_except_clauses_are_the_model', 'C04_wait_for_is_the_model',
      'C04_udp_timeout_mechanism_is_the_model', 'C04_tcp_timeout_mechanism_is_the_model', 'C04_max_retries_reached_is_the_model', 'C04_send_request_sync_is_the_model',
      'C04_retry_bounded', 'C04_budget_exhausted', 'C04_retry_consumes_one', 'C04_bound'],
     text='Refinement theorems re-proved on every run: the model functions used below ARE the current source of the corresponding synchronous methods of protocol.py (translated by tools/cb2v.py into the statement language of Model/Callbacks.v, fail-closed): _timeout_mechanism, _max_retries_reached, _send_request. '
